@@ -30,25 +30,43 @@ def gen_asm(rnd, n):
 
 
 def to_real(asm):
-    from vyper.evm.assembler.instructions import PUSHLABEL, Label
+    from vyper.evm.assembler.instructions import DATA_ITEM, PUSH_OFST, PUSHLABEL, DataHeader, Label
     out = []
     for x in asm:
         if isinstance(x, tuple):
-            out.append(Label(x[1]) if x[0] == "L" else PUSHLABEL(Label(x[1])))
+            k = x[0]
+            if k == "L":
+                out.append(Label(x[1]))
+            elif k == "P":
+                out.append(PUSHLABEL(Label(x[1])))
+            elif k == "O":
+                out.append(PUSH_OFST(Label(x[1]), x[2]))
+            elif k == "D":
+                out.append(DataHeader(Label(x[1])))
+            elif k == "DL":
+                out.append(DATA_ITEM(Label(x[1])))
+            else:
+                raise ValueError(x)
         else:
             out.append(x)
     return out
 
 
 def from_real(asm):
-    """real assembly list -> abstract items (unknown item kinds become opaque ops)."""
-    from vyper.evm.assembler.instructions import PUSHLABEL, Label
+    """real assembly list -> abstract items (unknown item kinds become opaque)."""
+    from vyper.evm.assembler.instructions import DATA_ITEM, PUSH_OFST, PUSHLABEL, DataHeader, Label
     out = []
     for x in asm:
         if isinstance(x, Label):
             out.append(("L", x.label))
         elif isinstance(x, PUSHLABEL):
             out.append(("P", x.label.label))
+        elif isinstance(x, PUSH_OFST) and isinstance(x.label, Label):
+            out.append(("O", x.label.label, x.ofst))
+        elif isinstance(x, DataHeader):
+            out.append(("D", x.label.label))
+        elif isinstance(x, DATA_ITEM) and isinstance(x.data, Label):
+            out.append(("DL", x.data.label))
         elif isinstance(x, bool):
             raise ValueError("bool in assembly")
         elif isinstance(x, int):
@@ -56,27 +74,42 @@ def from_real(asm):
         elif isinstance(x, str):
             out.append(str(x))
         else:
-            out.append("<" + re.sub(r"[^A-Za-z0-9_]", "_", repr(x)) + ">")
+            out.append(("X", re.sub(r"[^A-Za-z0-9_]", "_", repr(x))))
     return out
 
 
+def show_item(x):
+    if isinstance(x, tuple):
+        k = x[0]
+        if k == "L":
+            return "L:" + x[1]
+        if k == "P":
+            return "P:" + x[1]
+        if k == "O":
+            return "O:" + x[1] + ":" + (format(x[2], "x") if x[2] >= 0 else "-" + format(-x[2], "x"))
+        if k == "D":
+            return "D:" + x[1]
+        if k == "DL":
+            return "DL:" + x[1]
+        return "<" + x[1] + ">"
+    if isinstance(x, int):
+        return "#" + (format(x, "x") if x >= 0 else "-" + format(-x, "x"))
+    return x
+
+
 def show(asm):
-    parts = []
-    for x in asm:
-        if isinstance(x, tuple):
-            parts.append(("L:" if x[0] == "L" else "P:") + x[1])
-        elif isinstance(x, int):
-            parts.append("#" + (format(x, "x") if x >= 0 else "-" + format(-x, "x")))
-        else:
-            parts.append(x)
-    return " ".join(parts)
+    return " ".join(show_item(x) for x in asm)
 
 
 def coq_items(asm):
     parts = []
     for x in asm:
         if isinstance(x, tuple):
-            parts.append(f'{"Lbl" if x[0] == "L" else "PushLbl"} "{x[1]}"')
+            k = x[0]
+            if k == "O":
+                parts.append(f'PushOfst "{x[1]}" {coqrun.hexlit(x[2])}')
+            else:
+                parts.append({"L": "Lbl", "P": "PushLbl", "D": "DataHdr", "DL": "DataLbl", "X": "Opaque"}[k] + f' "{x[1]}"')
         elif isinstance(x, int):
             parts.append(f"Imm {coqrun.hexlit(x)}")
         else:
@@ -84,37 +117,80 @@ def coq_items(asm):
     return "[" + "; ".join(parts) + "]"
 
 
+REAL = {}     # id(abstract list) -> the real assembly it was taken from (for items that cannot be rebuilt)
+
+
 def real_pass(fn_name, asm):
+    """-> list of item strings after the real pass (or ["E"] / ["PANIC"])"""
+    import copy
+
     from vyper.evm.assembler import optimizer as AO
-    real = to_real(asm)
+    from vyper.exceptions import CompilerPanic
+    real = copy.deepcopy(REAL[id(asm)]) if id(asm) in REAL else to_real(asm)
     try:
         getattr(AO, fn_name)(real)
     except IndexError:
-        return "E"
-    return show(from_real(real))
+        return ["E"]
+    except CompilerPanic:
+        return ["PANIC"]
+    return [show_item(x) for x in from_real(real)]
 
 
-def corpus_assemblies(max_items=1500):
-    """unoptimised runtime assemblies of the example contracts (legacy pipeline)."""
+LABELS = ["a", "b", "c", "d"]
+JUMP_PATTERNS = [
+    [("P", "a"), "JUMP", ("L", "a")], [("P", "a"), "JUMP", ("L", "b")],
+    [("P", "c"), "JUMPI", ("P", "b"), "JUMP", ("L", "c")], [("P", "c"), "JUMPI", ("P", "b"), "JUMP", ("L", "d")],
+    [("L", "a"), ("L", "b")], [("L", "b"), ("P", "c"), "JUMP"], [("L", "c"), ("L", "c")], [("L", "d"), ("P", "d"), "JUMP"],
+    ["STOP", "ADD", "POP", ("L", "a")], ["JUMP", "DUP1", ("P", "b"), "MUL"], ["RETURN", "SWAP1"], ["REVERT", ("D", "tbl"), ("DL", "a")],
+    ["INVALID", "INVALID", ("L", "b")], [("O", "a", 3), "MLOAD"], ["ISZERO", "ISZERO", ("P", "a"), "JUMPI"],
+    ["EQ", "ISZERO", "ISZERO", ("P", "b"), "JUMPI"], [("P", "a"), "JUMPI"], [("P", "b"), "JUMP"],
+]
+
+
+def gen_labelled_asm(rnd, n):
+    out = []
+    while len(out) < n:
+        r = rnd.random()
+        if r < 0.4:
+            out += rnd.choice(JUMP_PATTERNS)
+        elif r < 0.6:
+            out += rnd.choice(PATTERNS)
+        elif r < 0.68:
+            out += ["PUSH1", rnd.choice([0, 1, 32])]
+        elif r < 0.76:
+            out.append(("L", rnd.choice(LABELS)))
+        elif r < 0.84:
+            out.append(("P", rnd.choice(LABELS)))
+        else:
+            out.append(rnd.choice(OPS))
+    return out
+
+
+def corpus_assemblies(names=None, tier="quick"):
+    """unoptimised runtime + deploy assemblies of corpus contracts (legacy pipeline): C02 corpus + C15 corpus"""
     from pathlib import Path
 
-    from vlib.common import REPO
-    from vyper.compiler.phases import CompilerData
+    from vlib.c02_corpus import CORPUS
+    from vlib.c15_corpus import OWN
     from vyper.compiler.input_bundle import FileInput
+    from vyper.compiler.phases import CompilerData
     from vyper.compiler.settings import OptimizationLevel, Settings
     res = []
-    for p in sorted(Path(REPO, "examples").rglob("*.vy"))[:40]:
+    for c in OWN + CORPUS:
+        if names is not None and c["name"] not in names:
+            continue
         try:
-            src = p.read_text()
-            fi = FileInput(0, p, p, src)
-            cd = CompilerData(fi, settings=Settings(optimize=OptimizationLevel.NONE, experimental_codegen=False))
-            asm = from_real(list(cd.assembly_runtime))
-        except Exception:  # noqa: examples that need imports / search paths are skipped
+            fi = FileInput(0, Path(c["name"] + ".vy"), Path(c["name"] + ".vy"), c["src"])
+            cd = CompilerData(fi, settings=Settings(optimize=OptimizationLevel.NONE, experimental_codegen=False,
+                                                    evm_version="cancun"))
+            for a in (cd.assembly_runtime, cd.assembly):
+                asm = from_real(list(a))
+                if any('"' in show_item(x) for x in asm):
+                    continue
+                REAL[id(asm)] = list(a)
+                res.append((c["name"], asm))
+        except Exception:  # noqa
             continue
-        if any('"' in x for x in asm if isinstance(x, str)):
-            continue
-        for i in range(0, min(len(asm), max_items), 300):
-            res.append(asm[i:i + 300])
     return res
 
 
